@@ -4,7 +4,7 @@
    (order, proto field paths). *)
 From Coq Require Import String List NArith ZArith Bool Lia ZifyN ZifyNat ZifyBool.
 From J5V.lib Require Import Outcome.
-From J5V.model Require Import RulesDecl RulesWrite RulesRead Validate.
+From J5V.model Require Import RulesDecl RulesWrite RulesRead RulesSpec Validate RulesSpecDec.
 From J5V.gen Require Id62Gen.
 From J5V.proofs Require Import RulesProofs.
 Import ListNotations.
@@ -617,11 +617,14 @@ Qed.
 (* the normal form changes no meaning: the declared rules of the normal form
    accept exactly the values the declaration accepts (ties C04's notion of
    "the same schema" to C12's semantics) *)
-Lemma norm_int_sem r z : int_rule_ok (norm_int r) z = int_rule_ok r z.
+Lemma norm_int_ok r z : int_rule_ok (norm_int r) z = int_rule_ok r z.
 Proof.
   unfold int_rule_ok, norm_int. destruct r as [mn mx xmn xmx]. cbn [ir_min ir_max ir_xmin ir_xmax].
   destruct mn, mx, xmn as [[|]|], xmx as [[|]|]; reflexivity.
 Qed.
+(* ... stated on the declarative specification (model/RulesSpec.v) *)
+Lemma norm_int_sem r z : int_sem (norm_int r) z <-> int_sem r z.
+Proof. rewrite <- !int_rule_ok_spec, norm_int_ok. reflexivity. Qed.
 
 (* ---------------------------------------------------------------- enums as roots *)
 From J5V.model Require Import RulesEnum.
